@@ -46,7 +46,7 @@ class Section:
     def flush(self):
         if not self.lines:
             return
-        outs = lean.run_driver(self.lines)
+        outs = lean.run_driver(self.run.prop.driver, self.lines)
         for line, impl_out, model_out, meta, nontrivial in zip(
                 self.lines, self.impl, outs, self.meta, self.nontrivial):
             self.evaluations += 1
@@ -93,6 +93,15 @@ class Run:
 
 class PropCheck:
     id = None
+
+    @property
+    def driver(self):
+        return f'driver_{self.id.lower()}'
+
+    @property
+    def driver_root(self):
+        return f'Drivers.{self.id}'
+
     extractors = ()
     modules = ()
     trusted_base = ()
@@ -147,14 +156,14 @@ def run_check(prop, tier, seed):
     if not ok_props:
         failures.append({'kind': 'proof', 'name': ','.join(lean.failing_declarations(out_props)) or 'build',
                          'detail': out_props[-3000:]})
-    ok_driver, out_driver, t = lean.lake_build(['driver'])
+    ok_driver, out_driver, t = lean.lake_build([prop.driver])
     build_s += t
     if not ok_driver:
-        failures.append({'kind': 'driver-build', 'name': 'driver', 'detail': out_driver[-3000:]})
+        failures.append({'kind': 'driver-build', 'name': prop.driver, 'detail': out_driver[-3000:]})
 
     # 3 audit
     theorems, audit_problems, token_hits = [], [], []
-    token_hits = lean.forbidden_tokens(modules + ['Main'])
+    token_hits = lean.forbidden_tokens(modules + [prop.driver_root])
     if ok_props:
         theorems, audit_problems = lean.audit(prop.id, modules)
     if token_hits or audit_problems:
@@ -257,7 +266,7 @@ def run_check(prop, tier, seed):
     coverage = {
         'obligations': obligations,
         'discharged': discharged,
-        'checker_cmd': f'cd lean && lake build {" ".join(modules)} driver && lake env lean .audit/{prop.id}.lean',
+        'checker_cmd': f'cd lean && lake build {" ".join(modules)} {prop.driver} && lake env lean .audit/{prop.id}.lean',
         'trusted_base': BASE_TRUSTED + list(prop.trusted_base),
         'theorems': [{'name': t['name'], 'axioms': t.get('axioms')} for t in all_thm],
         'generated_tables': generated,
